@@ -136,7 +136,7 @@ def run_case(spec):
                          "witness": wit()})
     for app in (drv.a, drv.b):
         kinds = app.kinds()
-        for k in ("code", "key", "verifier", "versions"):
+        for k in ("welcome", "code", "key", "verifier", "versions"):
             if kinds.count(k) > 1:
                 viol.append({"key": "C09/event-repeated/" + k, "msg": "%s saw %s %d times" % (app.name, k, kinds.count(k)),
                              "witness": wit()})
